@@ -295,6 +295,8 @@ def run_hypothesis(ctx, sub, strategy, prop, max_examples, rounds=3, shrink_budg
     from hypothesis import given, settings, seed, HealthCheck, Phase
     from hypothesis import errors as herrors
 
+    if getattr(ctx, 'only', None) and sub not in ctx.only:
+        return
     if shrink_budget_s is None:
         shrink_budget_s = 60 if ctx.tier == 'quick' else 240
 
